@@ -223,6 +223,12 @@ pub fn check_c04(case: &Case, st: &mut Stats) -> Result<(), Violation> {
     let px = case.pixels(false);
     let sig = "C04:lrgb_to_xyb".to_string();
     let fail = |msg: String, p: &[[f32; 3]], w: usize, h: usize| Violation { signature: sig.clone(), message: msg, case: case.json_with("C04", p, w, h) };
+    if let Some(k) = prior_perm_kind(px.iter().flat_map(|p| p.iter().map(|c| c.to_bits())), px.len()) {
+        // the previous call on this thread converts a permutation of the same pixels (result ignored)
+        let q = permuted(&px, k, case.w);
+        let _ = catch(|| LinearRgb::new(q, case.w, case.h).map(Xyb::from).map(|_| ()));
+        st.class("preceded_by_a_permutation_of_the_same_image", 1);
+    }
     let res = catch(|| {
         // the LinearRgb object is either fresh or the result of an earlier Hsl -> LinearRgb conversion that was
         // then painted over through data_mut(): only the pixel data may matter
@@ -303,6 +309,11 @@ pub fn check_c05(case: &Case, st: &mut Stats) -> Result<(), Violation> {
         let l = LinearRgb::new(px.to_vec(), w, h).map_err(|e| format!("{e:?}"))?;
         Ok(LinearRgb::from(Xyb::from(l)))
     };
+    if let Some(k) = prior_perm_kind(px.iter().flat_map(|p| p.iter().map(|c| c.to_bits())), px.len()) {
+        let q = permuted(&px, k, case.w);
+        let _ = catch(|| rt(&q, case.w, case.h).map(|_| ()));
+        st.class("preceded_by_a_permutation_of_the_same_image", 1);
+    }
     let back = match catch(|| rt(&px, case.w, case.h)) {
         Err(p) => return Err(fail(format!("panic: {p}"), &px, case.w, case.h)),
         Ok(Err(e)) => return Err(fail(e, &px, case.w, case.h)),
